@@ -34,6 +34,8 @@ var c26Assumptions = []string{
 	"join conditions only between columns of the same type class (integers of any width/signedness; same collation for strings)",
 	"dolt's background statistics worker is stopped (dolt_stats_stop) so that plans, and therefore the recorded plan classes, do not depend on timing; ANALYZE TABLE is issued explicitly in some cases",
 	"single-column UNIQUE indexes are not generated (a generated row must never be rejected); UNIQUE indexes always contain the primary key",
+	"while finding " + c26FindValueRowNull + " is listed open, a disagreement where dolt's plan has a Filter whose whole condition is a single <= or >= comparison and dolt's rows are a superset of the reference rows is attributed to it (counted as excluded_known); the pinned sub-test reports it",
+	"while finding " + c26FindKeylessCount + " is listed open, `SELECT COUNT(col) FROM <keyless table>` is not generated (counted as excluded_known); the pinned sub-test reports it",
 }
 
 var qTableMarker = regexp.MustCompile(`\{T:([a-z0-9]+)\}`)
@@ -247,6 +249,67 @@ func qPlanClasses(plan []string) (classes []string, kv bool) {
 // the outcome of triaging disagreements that turned out not to be dolt defects; each is listed
 // in the recorder's assumptions and counted through rec.Excluded.
 func c26Exclusion(q qQuery) string {
+	if q.Shape == "keyless_count_column" && vh.OpenFinding("C26", c26FindKeylessCount) {
+		return c26FindKeylessCount
+	}
+	return ""
+}
+
+// c26FindValueRowNull: go-mysql-server's ValueRow fast path (taken only over dolt's iterators,
+// from the wire handler) evaluates `NULL <= x` and `NULL >= x` to TRUE in a Filter whose whole
+// condition is that one numeric comparison.
+const c26FindValueRowNull = "C26-valuerow-null-comparison"
+
+var c26ValueRowFilterRe = regexp.MustCompile(`Filter\n\s*├─ \([^()\n]+ (<=|>=) [^()\n]+\)\n`)
+
+func c26ValueRowNullShape(plan []string) bool {
+	return c26ValueRowFilterRe.MatchString(strings.Join(plan, "\n") + "\n")
+}
+
+func c26PinnedValueRowNull(t *testing.T, srv *vsql.Server, admin *vsql.Session) string {
+	db := srv.NewDBName()
+	admin.MustExec(t, "CREATE DATABASE "+db)
+	defer admin.Exec("DROP DATABASE " + db)
+	s := srv.Session(t, "pinned", db)
+	defer s.Close()
+	s.MustExec(t, "CREATE TABLE t (pk INT PRIMARY KEY, c INT UNSIGNED)")
+	s.MustExec(t, "INSERT INTO t VALUES (1,3),(2,NULL)")
+	var bad []string
+	for _, q := range []string{"SELECT pk FROM t WHERE c <= 10", "SELECT pk FROM t WHERE c >= 0", "SELECT pk FROM t WHERE c < 11", "SELECT pk FROM t WHERE c > 0"} {
+		r := s.MustQuery(t, q)
+		if got := strings.Join(r.Sorted(), ","); got != "1" {
+			bad = append(bad, fmt.Sprintf("%s returned pk {%s} want {1}", q, got))
+		}
+	}
+	if len(bad) > 0 {
+		return "t(pk INT PRIMARY KEY, c INT UNSIGNED) rows (1,3),(2,NULL): " + strings.Join(bad, "; ")
+	}
+	return ""
+}
+
+// c26FindKeylessCount: on a keyless table `SELECT COUNT(col) FROM t` (count fast path of
+// kvexec/count_agg.go) tests the NULL-ness of the value field one position to the left of col
+// (keyless value tuples start with the cardinality field).
+const c26FindKeylessCount = "C26-keyless-count-column"
+
+func c26PinnedKeylessCount(t *testing.T, srv *vsql.Server, admin *vsql.Session) string {
+	db := srv.NewDBName()
+	admin.MustExec(t, "CREATE DATABASE "+db)
+	defer admin.Exec("DROP DATABASE " + db)
+	s := srv.Session(t, "pinned", db)
+	defer s.Close()
+	s.MustExec(t, "CREATE TABLE t0 (c0 INT, c1 INT NOT NULL, c2 INT, c3 INT)")
+	s.MustExec(t, "INSERT INTO t0 VALUES (1,1,NULL,1),(NULL,1,NULL,NULL),(NULL,1,3,3)")
+	var bad []string
+	for _, p := range [][2]string{{"c0", "1"}, {"c1", "3"}, {"c2", "1"}, {"c3", "2"}} {
+		got, _ := s.Scalar(t, "SELECT COUNT("+p[0]+") FROM t0")
+		if got != p[1] {
+			bad = append(bad, fmt.Sprintf("COUNT(%s)=%s want %s", p[0], got, p[1]))
+		}
+	}
+	if len(bad) > 0 {
+		return "keyless t0(c0,c1 NOT NULL,c2,c3) rows (1,1,NULL,1),(NULL,1,NULL,NULL),(NULL,1,3,3): " + strings.Join(bad, "; ")
+	}
 	return ""
 }
 
@@ -317,6 +380,20 @@ func (c *qCase) runQuery(q qQuery) {
 	if derr != nil || merr != nil {
 		fail("an error from exactly one engine")
 		return
+	}
+	mismatch := false
+	if q.Ordered {
+		mismatch = !vsql.EqualStrings(dr.Ordered(), mr.Ordered())
+	} else {
+		mismatch = !vsql.EqualStrings(dr.Sorted(), mr.Sorted())
+	}
+	if mismatch && vh.OpenFinding("C26", c26FindValueRowNull) {
+		dp, _ := plan()
+		if c26ValueRowNullShape(dp) && (q.Limit || qOnly(mr, dr) == "") {
+			c.rec.Excluded(1)
+			c.rec.Class("known:"+c26FindValueRowNull, 1)
+			return
+		}
 	}
 	if q.Ordered {
 		if !vsql.EqualStrings(dr.Ordered(), mr.Ordered()) {
@@ -426,6 +503,26 @@ func TestVerif_C26(t *testing.T) {
 	defer admin.Close()
 	madmin := mem.Conn(t, "")
 	defer madmin.Close()
+	t.Run("pinned_keyless_count_column", func(t *testing.T) {
+		if msg := c26PinnedKeylessCount(t, srv, admin); msg != "" {
+			if vh.OpenFinding("C26", c26FindKeylessCount) {
+				vh.ReportKnown("C26", c26FindKeylessCount, msg)
+				return
+			}
+			vh.NoteViolation(t.Name(), "", `{"sql":["CREATE TABLE t0 (c0 INT, c1 INT NOT NULL, c2 INT, c3 INT)","INSERT INTO t0 VALUES (1,1,NULL,1),(NULL,1,NULL,NULL),(NULL,1,3,3)","SELECT COUNT(c0) FROM t0","SELECT COUNT(c2) FROM t0","SELECT COUNT(c3) FROM t0"],"observed":"`+strings.ReplaceAll(msg, `"`, `'`)+`"}`)
+			t.Errorf("%s", msg)
+		}
+	})
+	t.Run("pinned_valuerow_null_comparison", func(t *testing.T) {
+		if msg := c26PinnedValueRowNull(t, srv, admin); msg != "" {
+			if vh.OpenFinding("C26", c26FindValueRowNull) {
+				vh.ReportKnown("C26", c26FindValueRowNull, msg)
+				return
+			}
+			vh.NoteViolation(t.Name(), "", `{"sql":["CREATE TABLE t (pk INT PRIMARY KEY, c INT UNSIGNED)","INSERT INTO t VALUES (1,3),(2,NULL)","SELECT pk FROM t WHERE c <= 10","SELECT pk FROM t WHERE c >= 0"],"observed":"`+strings.ReplaceAll(msg, `"`, `'`)+`"}`)
+			t.Errorf("%s", msg)
+		}
+	})
 	maxRows := vh.N(120, 300)
 	nQueries := vh.N(45, 60)
 	vh.Check(t, "diff", 40, 150, func(rt *rapid.T) {
